@@ -34,7 +34,11 @@ RULE = ('finite_diff: method x pad_mode x axis length n (1..9, every n listed se
 TRUSTED = ['translator tools/extract/finite_diff.py: REGENERATES (AST -> Gen/FiniteDiff.lean) the 3 '
            'interior bands, the 30 boundary leaves, the size guards, _ADJ_METHOD/_ADJ_PADDING, the '
            'supported lists, the pad modes Laplacian refuses, and per class the flags "linear rule '
-           'in __init__" / "is_linear guard in .adjoint" (chains may test `v == lit`, `v in (lits)` '
+           'in __init__" / "is_linear guard in .adjoint", and (round 4) what each class\'s '
+           '.adjoint / .derivative BUILD (adjSpec: class, _ADJ_METHOD / _ADJ_PADDING applied?, '
+           'pad_const passed on?, minus sign; derivSpec: class, pad_const reset?; arguments bound '
+           'against the constructor signature; domain/range swap and attribute pass-through are '
+           'grammar) (chains may test `v == lit`, `v in (lits)` '
            'or an `or` of those; the interior stencil may be an if-chain or a module-level table of '
            'slices; a module table that is not a literal is read from the LIVE module of the tree '
            'under test, recorded as table_sources in the evidence, and refused if anything below '
@@ -43,7 +47,7 @@ TRUSTED = ['translator tools/extract/finite_diff.py: REGENERATES (AST -> Gen/Fin
            'everything else of diff_ops.py that the '
            'model mirrors is HAND-WRITTEN in Model/FiniteDiff.lean (prologue of finite_diff, '
            '`/ dx`, size-check semantics, line-wise N-d action, Gradient/Divergence/Laplacian '
-           'accumulation, which instance .adjoint/.derivative build) and only PINNED as '
+           'accumulation) and only PINNED as '
            'normalised text (tools/extract/finite_diff_pins.json: a change is a broken '
            'obligation, nothing is derived from it) and tied by the correspondence',
            'NumPy basic slicing / swapaxes / np.subtract / in-place ufuncs (modelled as exact '
@@ -67,8 +71,10 @@ ASSUMPTIONS = ['floating-point rounding is outside the model; the exact stream u
                'transpose differ from the adjoint (open finding F60 of C05; F56 for weighted power '
                'spaces) - there only call, derivative, is_linear and the returned instance are '
                'checked; the Lean theorems are about the plain (unweighted) sum',
-               'ndim <= 3 in the executable model and in the theorems about Gradient / Divergence '
-               '/ Laplacian (the property quantifies over ndim 1..3)',
+               'two executable N-d models: index triples (ndim <= 3, streams op/opmat/opt) and, '
+               'since round 4, multi-indices Nat -> Nat for ANY ndim (driver op ndn, stream opn on '
+               'uniform_discr of ndim 1..5; theorems pdN_/gradN_/divN_/laplacianN_ for every '
+               'ndim); the correspondence samples ndim <= 5',
                'integer-dtype arrays are outside the quantifier (real/complex dtype): '
                'finite_diff on an int array raises UFuncTypeError (in-place true division)']
 
@@ -833,6 +839,9 @@ def run_op_case(pl):
                                        'op.domain'.format(aop.domain, aop.range)[:400])
         except Exception as e:  # noqa
             rec['problems'].append('adjoint domain/range unreadable: {!r}'.format(e))
+    # ROUND 4: the same two comparisons against the instance computed from the GENERATED
+    # adjSpec / derivSpec (driver op `cfgg`: Op.adjointBy / Op.derivativeBy)
+    rec['checks'] += [('cfgg' + ln[3:], i_, l_) for (ln, i_, l_) in rec['checks']]
     if lin_flag != int(linear):
         rec['problems'].append('is_linear = {} but the operator is {}'.format(
             lin_flag, 'linear' if linear else 'affine (constant padding with pad_const != 0)'))
@@ -906,6 +915,8 @@ def ops_stream(ctx, reps, report=True, ndn=False):
         for (line, inst, lin_flag) in r['checks']:
             ans = outs[kc]
             kc += 1
+            if line.startswith('cfgg '):
+                ctx.hit('cfgg/{}/{}'.format(line.split('act=')[1].split()[0], r['desc']['kind']))
             if isinstance(inst, tuple):
                 neg, kind, m, p, c, rlin = inst
                 m = m if m is not None else line.split('method=')[1].split()[0]
@@ -1399,6 +1410,7 @@ EXPECTED_BRANCHES = sorted(
     {'opspace/' + v for v in SPACE_VARIANTS} | {'opmat/' + k for k in KINDS} |
     {'opn/ndim={}/{}'.format(d, k) for d in NDN_DIMS for k in KINDS} |
     {'opn/ndim>=4/' + p for p in PADS} |
+    {'cfgg/{}/{}'.format(a, k) for a in ('adjoint', 'derivative') for k in KINDS} |
     {stratum_of(k) for k in KINDS} |
     {'opt/{}-explicit:{}'.format('domain' if k == 'div' else 'range', o)
      for k in KINDS for o in X_OPTIONS[k]})
